@@ -51,3 +51,4 @@ pub fn c07_next_item_total_bounded() {
         }
     }
 }
+include!("/verif/kani/incrate/gen/repo_zonefile.rs");
